@@ -47,7 +47,7 @@ def production_cases(want, reachable_only=False):
             if any(v == "abs" or v[0] == "abs-not" for v in sh.values()):
                 c.fallback = (lambda prod=prod, sh=sh: [mk(prod, u) for u in parsing.unfolded_shapes(prod[2], sh)])
             cases.append(c)
-    return cases
+    return cases + parsing.field_expression_cases(want)
 
 
 def canary():
